@@ -351,3 +351,52 @@ def check_kwidth(rep, families, suffix, floor):
         if not bad:
             R.ok(1, sample='%s: masks consumed at one width each, bit count = lane count' % sym if 'avx512' in sym and sym.startswith('gf_2') else None)
     return R
+
+
+def ret_const_set(u, f):
+    """reaching definitions of rax at every ret: -> (set of integer constants, list of non-constant defining insns).
+    'entry' (rax never written) counts as non-constant."""
+    from asmdb import REG64
+    import regdef
+    IN = {f.entry: frozenset(['entry'])}
+    work = [f.entry]
+    while work:
+        a = work.pop()
+        st = IN[a]
+        i = u.insns[a]
+        uses, defs = regdef.def_use(i)
+        out = frozenset([a]) if 'rax' in defs else st
+        for n in u.succ(f, a):
+            if n not in IN:
+                IN[n] = out
+                work.append(n)
+            else:
+                new = IN[n] | out
+                if new != IN[n]:
+                    IN[n] = new
+                    work.append(n)
+    consts = set()
+    nonconst = []
+    for a in f.addrs:
+        if u.insns[a].mn != 'ret' or a not in IN:
+            continue
+        for d in IN[a]:
+            if d == 'entry':
+                nonconst.append(None)
+                continue
+            j = u.insns[d]
+            if j.mn in ('mov', 'movabs') and len(j.ops) == 2 and j.ops[0] in ('rax', 'eax'):
+                try:
+                    v = int(j.ops[1], 0)
+                    bits = 64 if j.ops[0] == 'rax' else 32
+                    if v >= 1 << (bits - 1):
+                        v -= 1 << bits
+                    consts.add(v)
+                    continue
+                except ValueError:
+                    pass
+            if j.mn in ('xor', 'sub') and len(j.ops) == 2 and j.ops[0] == j.ops[1] and j.ops[0] in ('rax', 'eax'):
+                consts.add(0)
+                continue
+            nonconst.append(j)
+    return consts, nonconst
